@@ -6,6 +6,7 @@
 #include "ompl/control/planners/est/EST.h"
 #include "ompl/control/planners/kpiece/KPIECE1.h"
 #include "ompl/control/planners/pdst/PDST.h"
+#include "ompl/control/SimpleDirectedControlSampler.h"
 #include "ompl/control/planners/rrt/RRT.h"
 #include "ompl/control/planners/sst/SST.h"
 #include "ompl/control/planners/syclop/GridDecomposition.h"
@@ -312,9 +313,15 @@ void vf::run_case(Src &s, Ctx &c)
     if (ps.kind != SP_RN || ps.n != 2)
         ps.space->registerDefaultProjection(std::make_shared<XYProjection>(ps.space, &P->ps));
     long budget = (long)std::exp(s.real(std::log(50.0), std::log(6000.0)));
+    // configuration: the directed control sampler tries k candidate controls and keeps the one ending closest to the target (the library
+    // default is k = 1); decoded last so that earlier saved cases keep their meaning (exhausted input -> k = 1)
+    const unsigned kc = s.chance(110) ? (unsigned)s.in(2, 12) : 1;
+    if (kc > 1)
+        csi->setDirectedControlSamplerAllocator([kc](const oc::SpaceInformation *si) { return std::make_shared<oc::SimpleDirectedControlSampler>(si, kc); });
+    c.count(kc > 1 ? "directed-sampler:k>1" : "directed-sampler:k=1(default)");
     static const char *sysName[] = {"first-order point", "unicycle", "second-order point", "1-control field follower"};
-    c.note("planner=control::%s seed=%u system=%s step=%.4g durations=[%u,%u] control bounds [%.3g,%.3g]x[%.3g,%.3g] budget=%ld thr=%.3g\n start (%.3g,%.3g) goal (%.3g,%.3g) env: %s\n",
-           cp.name, seed, sysName[sy.kind], sy.step, sy.minD, sy.maxD, sy.clo[0], sy.chi[0], sy.clo[1], sy.chi[1], budget, P->threshold, sx, sy0, gx, gy, P->env.str().c_str());
+    c.note("planner=control::%s seed=%u system=%s step=%.4g durations=[%u,%u] control bounds [%.3g,%.3g]x[%.3g,%.3g] budget=%ld thr=%.3g k=%u\n start (%.3g,%.3g) goal (%.3g,%.3g) env: %s\n",
+           cp.name, seed, sysName[sy.kind], sy.step, sy.minD, sy.maxD, sy.clo[0], sy.chi[0], sy.clo[1], sy.chi[1], budget, P->threshold, kc, sx, sy0, gx, gy, P->env.str().c_str());
     c.count(std::string("planner:") + cp.name);
     c.count(std::string("system:") + sysName[sy.kind]);
     CountPTC ptc(&c);
